@@ -560,6 +560,105 @@ def c10(res, wd):
                         "this check is TLC simulation, not exhaustion"]
 
 
+# ---------------------------------------------------------------------------------------------
+# C12: connection life-cycle events
+# ---------------------------------------------------------------------------------------------
+
+HS_INV = ["RunningIffFullHandshake", "EventsWellFormed", "NoErr"]
+
+
+def _silence_plan(rng, kind):
+    """Two peers (or host+spectator); one silence period of a length around the notify delay or
+    the disconnect timeout, in one or both directions, then a perfect network again."""
+    timeout = rng.choice([700, 1000, 2000])
+    notify = rng.choice([200, 300, 500])
+    notify = min(notify, timeout - 200)
+    if kind == "spec":
+        peers = [{"kind": "p2p", "locals": [0], "delay": 0, "host": 0},
+                 {"kind": "spec", "locals": [], "delay": 0, "host": 0}]
+        players = 1
+    else:
+        peers = [{"kind": "p2p", "locals": [0], "delay": 0, "host": 0},
+                 {"kind": "p2p", "locals": [1], "delay": 1, "host": 0}]
+        players = 2
+    cfg = {"players": players, "window": rng.choice([0, 2, 8]), "sparse": False, "predictor": "repeat",
+           "desync": 0, "fps": 60, "timeout": timeout, "notify": notify, "max_behind": 10, "catchup": 1,
+           "max_delay": 8, "peers": peers}
+    around = rng.choice([notify, notify, timeout])
+    ln = max(20, around + rng.choice([-220, -60, -30, -17, -5, 5, 17, 30, 60, 150]))
+    outs = [{"from": 1, "to": 0, "start": 1500, "len": ln}]
+    if rng.random() < 0.5:
+        outs.append({"from": 0, "to": 1, "start": 1500, "len": ln})
+    return {"seed": rng.randrange(1 << 30), "cfg": cfg, "frames": 10 ** 9, "tick_ms": [rng.choice([4, 16, 16, 33])] * 2,
+            "jitter": rng.choice([0, 2]), "lat_lo": 3, "lat_hi": rng.choice([3, 20]), "loss": 0.0,
+            "alphabet": 4, "change": 0.3, "outages": outs, "fault_until": 1500 + ln + 10,
+            "after_ms": timeout + 800, "min_progress": 0, "max_ms": 30000, "p_poll": rng.choice([0.0, 0.5])}
+
+
+def c12(res, wd):
+    hs = [("f1_r1", {"Cap": 2, "FaultBudget": 1, "StrayBudget": 0, "RetryBudget": 1}),
+          ("s1_r1", {"Cap": 2, "FaultBudget": 0, "StrayBudget": 1, "RetryBudget": 1})]
+    if res.tier == "thorough":
+        hs += [("f1_s1_r2", {"Cap": 2, "FaultBudget": 1, "StrayBudget": 1, "RetryBudget": 2})]
+    for name, c in hs:
+        held, out = engines.mc_generic(res, wd, "hs_" + name, "MC_Handshake.tla", c, invariants=HS_INV,
+                                       props=["Completes"], workers=10, timeout=1200)
+        if not held:
+            raise core.ToolError("MC_Handshake/%s violates its properties: the handshake model deviates from the "
+                                 "code or the code is defective; see %s" % (name, wd))
+    rng = random.Random(res.seed * 1000 + 120)
+    n, frames = sizes(res.tier, (10, 150), (80, 600))
+    # (a) handshake under heavy loss / duplication / reordering, 2-4 peers, spectators
+    ps = []
+    for i in range(n):
+        p = plans.general(rng, frames, spectators=rng.choice([0, 0, 1]))
+        p["loss"] = rng.choice([0.2, 0.4, 0.6])
+        p["dup"] = rng.choice([0.0, 0.2, 0.4])
+        p["lat_hi"] = p["lat_lo"] + rng.choice([30, 120, 300])
+        p["fault_until"] = rng.choice([800, 2500])
+        p["after_ms"] = 3000 + frames * 20
+        p["min_progress"] = 10
+        ps.append(p)
+    engines.obs_runs(res, "C12", ps, {"C12", "C05"}, wd, "c12hs", nontrivial=lambda st, pl: st["dropped"] >= 10)
+    # (b) silences of every length around the notify delay and the timeout
+    nsl = sizes(res.tier, 16, 120)
+    sl = [_silence_plan(rng, "spec" if i % 4 == 3 else "p2") for i in range(nsl)]
+    engines.obs_runs(res, "C12", sl, {"C12", "C07"}, wd, "c12sil", nontrivial=lambda st, pl: st["events"] >= 10)
+    # (c) the user never drains events (interruptions and wait recommendations keep coming)
+    nd = sizes(res.tier, 3, 12)
+    nv = []
+    for i in range(nd):
+        p = plans.general(rng, sizes(res.tier, 1500, 6000), npeers=rng.choice([2, 3]), spectators=rng.choice([0, 1]))
+        p["drain"] = False
+        p["cfg"]["notify"] = 100
+        p["cfg"]["timeout"] = 60000
+        p["outage_rate"] = 0.6
+        p["outage_lo"] = 120
+        p["outage_hi"] = 400
+        p["tick_ms"] = [16] + [22] * (len(p["tick_ms"]) - 1)
+        p["max_ms"] = 200000
+        nv.append(p)
+    engines.obs_runs(res, "C12", nv, {"C12", "C18"}, wd, "c12nd", nontrivial=lambda st, pl: st["ticks"] >= 1000)
+    # (d) two connected sessions that merely poll, at any cadence up to the keep-alive interval
+    po = []
+    for cad in ([1, 16, 50, 120, 199] if res.tier == "quick" else [1, 5, 16, 33, 50, 100, 150, 180, 199]):
+        po.append({"seed": cad, "frames": 10 ** 9, "poll_only": True,
+                   "cfg": {"players": 2, "window": 8, "timeout": 2000, "notify": 500, "no_interrupt": True,
+                           "peers": [{"kind": "p2p", "locals": [0], "delay": 0, "host": 0},
+                                     {"kind": "p2p", "locals": [1], "delay": 0, "host": 0}]},
+                   "tick_ms": [cad, cad], "jitter": 0, "lat_lo": 5, "lat_hi": 30, "loss": 0.0,
+                   "max_ms": 6000})
+    engines.obs_runs(res, "C12", po, {"C12"}, wd, "c12poll", nontrivial=lambda st, pl: st["events"] >= 2)
+    res.rule = ("(1) MC_Handshake.tla (two endpoints from Protocol.tla's operators; loss, duplication, reordering, stray "
+                "replies with unissued / consumed nonces or a foreign magic): Running iff exactly 5 matched round trips, "
+                "event word Synchronizing(1..4) Synchronized, liveness Completes under weak fairness; (2) real sessions: "
+                "handshakes under 20-60% loss, silences of notify/timeout -220..+150 ms, never-drained sessions with "
+                "frequent interruptions, poll-only pairs at cadences 1..199 ms.  Monitor.tla: per-address event automaton, "
+                "Synchronized only after 5 matched request/reply round trips counted from the packets, Running iff all "
+                "remotes synchronized, NotSynchronized before, interruption/disconnect neither early nor late, "
+                "event queue <= 100.  non-trivial per family: packets lost / events seen / >=1000 calls")
+
+
 CHECKS = {
     "C01": c01,
     "C02": c02,
@@ -571,6 +670,7 @@ CHECKS = {
     "C09": c09,
     "C10": c10,
     "C11": c11,
+    "C12": c12,
 }
 
 
